@@ -159,7 +159,7 @@ def build_script_env():
     return {"OUT_DIR": out, "CARGO_MANIFEST_DIR": os.path.dirname(out), "CARGO_PKG_NAME": "shader_consumer", "CARGO_PKG_VERSION": "0.3.1", "CARGO_PKG_RUST_VERSION": "1.64",
             "CARGO_PKG_AUTHORS": "", "CARGO_CRATE_NAME": "build_script_build", "TARGET": t, "HOST": t, "PROFILE": "debug", "OPT_LEVEL": "0", "DEBUG": "true", "NUM_JOBS": "16",
             "CARGO_CFG_TARGET_OS": "linux", "CARGO_CFG_TARGET_ARCH": "x86_64", "CARGO_CFG_UNIX": "", "CARGO_ENCODED_RUSTFLAGS": "", "RUSTC": "rustc", "CARGO_MAKEFLAGS": "-j16",
-            "CARGO_FEATURE_DEFAULT": "1"}
+            "CARGO_FEATURE_DEFAULT": "1", "RUSTUP_TOOLCHAIN": os.environ.get("RUSTUP_TOOLCHAIN", "stable-x86_64-unknown-linux-gnu")}
 
 
 # what cargo tells a build script about the TARGET (the script itself runs on the host): native, web, windows
@@ -463,7 +463,11 @@ def match_finding(prop, verdict, case, findings):
             pred = json.loads(m.group(1))
         except Exception:
             pred = []
-        causes = {f["signature"]["cause"]: f for f in open_f if "cause" in f.get("signature", {})}
+        # a finding may be limited to option values (e.g. only with the formatter on)
+        def opts_ok(f):
+            want = f.get("signature", {}).get("opts")
+            return not want or all((case or {}).get("opts", {}).get(k_) == v_ for k_, v_ in want.items())
+        causes = {f["signature"]["cause"]: f for f in open_f if "cause" in f.get("signature", {}) and opts_ok(f)}
         if pred and all(c in causes for c in pred):
             return causes[pred[0]]
         if pred or any("cause" in f.get("signature", {}) for f in open_f):
